@@ -339,8 +339,11 @@ def r_singleton(e, R):
                 R.check(okk, "R-SINGLETON", f"{fac.short}: the recursion passes the new arguments", fac.short, norm(c)[:70],
                         "the replacement is built from other arguments than the requested ones", e.loc(fac, c))
     # reuse branch resizes to the requested size
-    rzq = resize_func(e).qualname
-    rz = [n for n in g.nodes for c in calls_in(n) if rzq in e.callees_of(c)]
+    try:
+        rzq = resize_func(e).qualname
+    except AnalysisError:
+        rzq = None   # the factory calls no resizing method of the executor at all
+    rz = [n for n in g.nodes for c in calls_in(n) if rzq is not None and rzq in e.callees_of(c)]
     ok = bool(rz) and all(any(g.on_branch(n, t, "F") for t in g.nodes if t.kind == "test" and g.dominates(t, n)) for n in rz)
     R.check(bool(rz), "R-SINGLETON", f"{fac.short}: a reused executor is resized to the requested max_workers", fac.short, "executor._resize(max_workers)",
             "a reused executor keeps its old size", e.loc(fac, fac.node))
@@ -531,11 +534,11 @@ def r_resize(e, R):
     # request by coincidence after idle time-outs, and the recorded size then stays at its old, larger value
     noop = []
     for t_ in g.nodes:
-        if t_.kind == "test" and isinstance(t_.ast, ast.Compare) and len(t_.ast.ops) == 1 and isinstance(t_.ast.ops[0], ast.Eq):
+        if t_.kind == "test" and isinstance(t_.ast, ast.Compare) and len(t_.ast.ops) == 1 and isinstance(t_.ast.ops[0], (ast.Eq, ast.NotEq)):
             sides = [t_.ast.left, t_.ast.comparators[0]]
             if any(isinstance(s_, ast.Name) and s_.id == tgt for s_ in sides):
                 other = [s_ for s_ in sides if not (isinstance(s_, ast.Name) and s_.id == tgt)]
-                rets_ = [n_ for n_ in g.nodes if n_.kind == "stmt" and isinstance(n_.ast, ast.Return) and g.on_branch(n_, t_, "T")]
+                rets_ = [n_ for n_ in g.nodes if n_.kind == "stmt" and isinstance(n_.ast, ast.Return) and (g.on_branch(n_, t_, "T") or g.on_branch(n_, t_, "F"))]
                 if other and rets_:
                     noop.append((t_, other[0]))
     for t_, other in noop:
@@ -557,10 +560,18 @@ def r_resize(e, R):
     for what, S in (("waits for the running jobs", waitj), ("posts the surplus sentinels (loop)", None), ("records the new size", set(started)), ("tops the pool up", sp)):
         if S is None:
             continue
-        SC.must(e, R, "R-RESIZE", f, "a different size is requested on a started executor", [(SC.name(tgt), "some"), (mthread, "some")],
+        brk0 = lambda x: isinstance(x, ast.Attribute) and x.attr == "broken" and bool(set(e.pt.ev(f, x.value)) & a.flags_objs)
+        has_brk = any(brk0(x) for n_ in g.nodes if n_.kind == "test" and n_.ast is not None for x in ast.walk(n_.ast))
+        SC.must(e, R, "R-RESIZE", f, "a different size is requested on a started, healthy executor", [(SC.name(tgt), "some"), (mthread, "some")] + ([(brk0, "F")] if has_brk else []),
                 lambda n, S=S: n in S, what, "the resize returns without resizing: get_reusable_executor(max_workers=n) hands out an executor of another size",
                 evaluators=[same_size(False)])
     SC.must(e, R, "R-RESIZE", f, "no size is given", [(SC.name(tgt), "none")], raises, "refuses (raise)", "None is compared with integers further down")
+    # the waits of the resize end when the pool breaks (a worker died: the manager kills every worker and closes the queues);
+    # the resize must not go on to build new workers around the closed queues of a broken pool
+    brk = lambda x: isinstance(x, ast.Attribute) and x.attr == "broken" and bool(set(e.pt.ev(f, x.value)) & a.flags_objs)
+    SC.never(e, R, "R-RESIZE", f, "the pool broke while the resize was waiting", [(SC.name(tgt), "some"), (mthread, "some"), (brk, "T")], lambda n: n in sp,
+             "the top-up (spawn of new workers)", "new workers are built around the closed queues of a broken pool: get_reusable_executor raises "
+             "`OSError: handle is closed` (or leaves workers nobody will ever kill or reap) instead of returning", evaluators=[same_size(False)])
     # the shrink wait ends exactly when the table is down to the target (or the pool broke)
     loops = [n for n in func_nodes(f) if isinstance(n, ast.While) and any(isinstance(x, ast.Call) and isinstance(x.func, ast.Name) and x.func.id == "len"
                                                                         and x.args and e.objs(f, x.args[0]) & a.processes for x in ast.walk(n.test))]
